@@ -19,6 +19,9 @@ def algo_case(rng, algo, tier, part=None, dim=None, n=None, T=None, fams=None, b
         ch = n_choices or ([100, 101, 128, 150, 200, 257, 333, 500] if tier == "quick" else
                            [100, 101, 128, 200, 257, 333, 500, 777, 1000, 2000])
         n = int(rng.choice(ch))
+        if n_choices is None and rng.random() < 0.5:
+            # budget-specific slips (bands of n that depend on K, H_n, log2 n, ...) need budgets off the usual grid
+            n = int(rng.integers(100, max(ch) + 1))
         if algo in ("T_HOO", "POO_T_HOO", "GPO_T_HOO"):
             n = min(n, 500 if tier == "quick" else 1000)
         if algo == "VROOM":
